@@ -39,3 +39,46 @@ def unit_disabled():
     out.append('def shapesChecked : String := "identify/enable/disable/verify statement shapes matched by the translator"\n')
     out.append("end Gen.Disabled\n")
     return "\n".join(out)
+
+
+@unit("UsingBool")
+def unit_using_bool():
+    """as_bool(): the three word sets (reflected) and the order in which the function consults them (from the source)."""
+    import ast as _ast
+
+    import passlib.utils as pu
+
+    from extract_core import Untranslatable, find_def, src_ast, strip_doc
+
+    fn = find_def(src_ast("passlib/utils/__init__.py"), "as_bool")
+    body = strip_doc(fn.body)
+    first_if = [s for s in body if isinstance(s, _ast.If)]
+    if not first_if or _ast.unparse(first_if[0].test) != "isinstance(value, unicode_or_bytes)":
+        raise Untranslatable("as_bool: first branch is not the text branch")
+    tb = first_if[0].body
+    if _ast.unparse(tb[0]) != "clean = value.lower().strip()":
+        raise Untranslatable(f"as_bool: normalisation is `{_ast.unparse(tb[0])}`")
+    order = []
+    for s in tb[1:]:
+        if isinstance(s, _ast.If) and isinstance(s.test, _ast.Compare) and _ast.unparse(s.test).startswith("clean in "):
+            order.append((_ast.unparse(s.test.comparators[0]), _ast.unparse(s.body[0])))
+        elif isinstance(s, _ast.Raise):
+            order.append(("raise", _ast.unparse(s.exc.func) if isinstance(s.exc, _ast.Call) else _ast.unparse(s.exc)))
+        else:
+            raise Untranslatable(f"as_bool: unexpected statement `{_ast.unparse(s)[:80]}`")
+    want = [("_true_set", "return True"), ("_false_set", "return False"), ("_none_set", "return none"), ("raise", "ValueError")]
+    if order != want:
+        raise Untranslatable(f"as_bool: text branch is {order}")
+
+    def words(st):
+        if not all(isinstance(w, str) and w.isascii() for w in st):
+            raise Untranslatable("as_bool: non-ASCII word")
+        return "[" + ", ".join(lean_nat_list(ords(w)) for w in sorted(st)) + "]"
+
+    out = [HEADER.format(src="passlib/utils/__init__.py (as_bool)"), "namespace Gen.UsingBool\n",
+           f"def trueSet : List (List Nat) := {words(pu._true_set)}\n",
+           f"def falseSet : List (List Nat) := {words(pu._false_set)}\n",
+           f"def noneSet : List (List Nat) := {words(pu._none_set)}\n",
+           'def textBranch : String := "clean = value.lower().strip(); true set, false set, none set, else ValueError"\n',
+           "end Gen.UsingBool\n"]
+    return "\n".join(out)
